@@ -43,6 +43,9 @@ def builtin_fn(ex, st, nm, e, cx, k):
                 dt_ = T.sort_of(t)
                 return ex.guard_raise(st, cx, z3.Not(dt_.is_some(v.z)), 'TypeError', e,
                                       lambda s_: k(s_, SV(INT, z3.Length(dt_.val(v.z)))), why='len(None)')
+            if t.kind == 'opt' and t.args[0].kind == 'str' and cx.spec:
+                # in a contract clause: the length of the string it holds (unspecified for None; clauses guard with `is not None`)
+                return k(st, SV(INT, z3.Length(T.sort_of(t).val(v.z))))
             if t.kind in ('seq', 'str'):
                 return k(st, SV(INT, z3.Length(v.z)))
             if t.kind == 'cfg':
